@@ -720,13 +720,11 @@ c09_uintvector_build!(c09_uintvector_build_n12_full, thorough, 60, 12, 429496729
 
 /// Twelve elements (bit packing needs more than 10), ten of them concrete (100..=109) and two symbolic
 /// in [100, 100+SPAN]: the value range max-min - which selects the packed width - is a solver choice.
-fn uintvector_build_mixed<const SPAN: u32>() {
-    let mut src = [100u32, 101, 102, 103, 104, 105, 106, 107, 108, 109, 0, 0];
+fn uintvector_build_mixed<const LO: u32, const HI: u32>() {
+    let mut src = [100u32, 101, 102, 103, 104, 105, 106, 107, 108, 109, 100, 0];
     let x: u32 = vany();
-    let y: u32 = vany();
-    assume(x >= 100 && x <= 100 + SPAN && y >= 100 && y <= 100 + SPAN);
-    src[10] = x;
-    src[11] = y;
+    assume(x >= 100 + LO && x <= 100 + HI);
+    src[11] = x;
     let r = UintVector::build_from(&src);
     match &r {
         Ok(v) => {
@@ -737,14 +735,14 @@ fn uintvector_build_mixed<const SPAN: u32>() {
                 i += 1;
             }
             assert!(v.get(12).is_none(), "read past the end not refused");
-            zcover!(x == 100 + SPAN, "largest value of the span stored");
+            zcover!(x == 100 + HI, "largest value of the span stored");
         }
         Err(_) => {}
     }
     forget(r);
 }
 macro_rules! c09_uintvector_mixed {
-    ($name:ident, $tier:ident, $unwind:literal, $span:literal) => {
+    ($name:ident, $tier:ident, $unwind:literal, $lo:literal, $hi:literal) => {
         zv_harness! {
             name: $name,
             prop: "C09",
@@ -752,14 +750,15 @@ macro_rules! c09_uintvector_mixed {
             unwind: $unwind,
             stubs: [alloc::fmt::format => crate::common::stubs::fmt_format],
             targets: "UintVector::build_from (analyze_optimal_strategy, min-max bit packing: width from the value range; write_bits_fast), get, len",
-            bounds: "12 elements: 100..=109 concrete plus two symbolic values in [100, 100+SPAN] (instance arg), so every value range from 9 to SPAN - powers of two and their neighbours included - is covered",
+            bounds: "12 elements: eleven concrete (100..=109, 100) plus one symbolic value in [100+LO, 100+HI] (instance args), i.e. the value range max-min runs over LO..=HI, chosen to straddle a power of two",
             oracle: "build_from Ok or Err; if Ok: len()==12, get(i)==Some(input[i]) for all i, get(12)==None",
-            body: { uintvector_build_mixed::<$span>() }
+            body: { uintvector_build_mixed::<$lo, $hi>() }
         }
     };
 }
-c09_uintvector_mixed!(c09_uintvector_mixed_span40, quick, 20, 40);
-c09_uintvector_mixed!(c09_uintvector_mixed_span300, thorough, 20, 300);
+c09_uintvector_mixed!(c09_uintvector_mixed_r14_17, thorough, 20, 14, 17);
+c09_uintvector_mixed!(c09_uintvector_mixed_r30_33, thorough, 20, 30, 33);
+c09_uintvector_mixed!(c09_uintvector_mixed_r9_300, thorough, 20, 9, 300);
 
 zv_harness! {
     name: c09_uintvector_push_n5,
